@@ -7,20 +7,23 @@
 (* further steps and is then preempted (k = 0: it runs to its end, which is *)
 (* not a preemption).  TLC enumerates every schedule with at most MaxPre    *)
 (* preemptions; a thread may be preempted before any of its steps 2..N[t].  *)
-(* env C20_SCHED names a one-line JSON file {"n": [N1, N2, ..]}.            *)
+(* env C20_SCHED names a JSON-lines file, one configuration per line:       *)
+(*    {"n": [N1, N2, ..], "p": MaxPre}                                      *)
+(* the configuration is picked by the initial state (variable c).          *)
 (***************************************************************************)
 EXTENDS Naturals, Sequences, TLC, Json, IOUtils
 
-CONSTANT MaxPre
+Cfgs == ndJsonDeserialize(IOEnv.C20_SCHED)
 
-Cfg == ndJsonDeserialize(IOEnv.C20_SCHED)[1]
-N == Cfg.n
+VARIABLES c, pos, last, pre, blocks
+svars == <<c, pos, last, pre, blocks>>
+
+N == Cfgs[c].n
+MaxPre == Cfgs[c].p
 T == DOMAIN N
 
-VARIABLES pos, last, pre, blocks
-svars == <<pos, last, pre, blocks>>
-
-SInit == pos = [t \in T |-> 0] /\ last = 0 /\ pre = 0 /\ blocks = <<>>
+SInit == /\ c \in DOMAIN Cfgs
+         /\ pos = [t \in DOMAIN Cfgs[c].n |-> 0] /\ last = 0 /\ pre = 0 /\ blocks = <<>>
 
 Left(t) == N[t] - pos[t]
 
@@ -36,13 +39,13 @@ Preempted(t) == /\ pre < MaxPre
                 /\ pre' = pre + 1
 
 Block(t) == /\ t # last /\ Left(t) > 0
-            /\ last' = t
+            /\ last' = t /\ c' = c
             /\ (RunToEnd(t) \/ Preempted(t))
 
 SNext == \E t \in T : Block(t)
 SSpec == SInit /\ [][SNext]_svars
 
 Finished == \A t \in T : Left(t) = 0
-SEmit == Finished => PrintT(ToJson([b |-> blocks, p |-> pre]))
+SEmit == Finished => PrintT(ToJson([c |-> c, b |-> blocks, p |-> pre]))
 Bounded == pre <= MaxPre
 =============================================================================
